@@ -166,3 +166,82 @@ def aug_form(stmt):
     if isinstance(stmt, ast.Assign) and len(stmt.targets) == 1 and isinstance(stmt.value, ast.BinOp) and norm(stmt.value.left) == norm(stmt.targets[0]):
         return norm(stmt.targets[0]), type(stmt.value.op), stmt.value.right
     return None
+
+
+def universal(func_node):
+    """Recognise a function that answers "does P hold for every element": either ``return all(P for v in L ...)`` or nested loops whose
+    innermost body is ``if not P: return False`` with ``return True`` after them.  -> {'gens': [(target text, iter text)], 'pred': P as
+    canonical text, 'filters': [canonical texts]} or None."""
+    from .cfg import canon_test
+    rets = [r for r in walk_own(func_node) if isinstance(r, ast.Return)]
+    for r in rets:
+        v = r.value
+        if isinstance(v, ast.Call) and isinstance(v.func, ast.Name) and v.func.id == 'all' and len(v.args) == 1 and isinstance(v.args[0], (ast.GeneratorExp, ast.ListComp)):
+            ge = v.args[0]
+            if len(rets) - sum(1 for x in rets if isinstance(x.value, ast.Constant) and x.value.value is False) == 1:
+                return {'gens': [(norm(g.target), norm(g.iter)) for g in ge.generators], 'pred': canon_test(ge.elt),
+                        'filters': [canon_test(i) for g in ge.generators for i in g.ifs]}
+    loops = [l for l in walk_own(func_node) if isinstance(l, ast.For)]
+    if not loops:
+        return None
+    outer = [l for l in loops if not any(l is not o and any(x is l for x in walk_own(o)) for o in loops)]
+    if len(outer) != 1:
+        return None
+    gens, cur = [], outer[0]
+    while True:
+        gens.append((norm(cur.target), norm(cur.iter)))
+        body = effective(cur.body)
+        if cur.orelse or len(body) != 1:
+            return None
+        if isinstance(body[0], ast.For):
+            cur = body[0]
+            continue
+        leaf = body[0]
+        break
+    if not (isinstance(leaf, ast.If) and not leaf.orelse and len(effective(leaf.body)) == 1 and isinstance(effective(leaf.body)[0], ast.Return)):
+        return None
+    rv = effective(leaf.body)[0].value
+    if not (isinstance(rv, ast.Constant) and rv.value is False):
+        return None
+    if any(isinstance(x, (ast.Break, ast.Continue)) for x in walk_own(func_node)):
+        return None
+    others = [r for r in rets if r is not effective(leaf.body)[0]]
+    trues = [r for r in others if isinstance(r.value, ast.Constant) and r.value.value is True]
+    if len(trues) != 1 or any(not (isinstance(r.value, ast.Constant) and r.value.value in (True, False)) for r in others):
+        return None
+    if trues[0].lineno < outer[0].lineno:
+        return None
+    return {'gens': gens, 'pred': canon_test(ast.UnaryOp(op=ast.Not(), operand=leaf.test)), 'filters': []}
+
+
+def expand_expression_methods(klass, node, depth=2):
+    """Copy of ``node`` in which calls ``self.m(args)`` to methods of ``klass`` whose body is a single ``return <expr>`` (plus docstring)
+    are replaced by that expression with the parameters substituted; lets a rule compare formulas whether or not they are written
+    through such a one-line helper of the same class."""
+    import copy
+
+    def body_expr(f):
+        b = effective(f.node.body)
+        if len(b) == 1 and isinstance(b[0], ast.Return) and b[0].value is not None and not f.node.decorator_list:
+            return b[0].value
+        return None
+
+    class T(ast.NodeTransformer):
+        def visit_Call(self, n):
+            self.generic_visit(n)
+            if isinstance(n.func, ast.Attribute) and isinstance(n.func.value, ast.Name) and n.func.value.id == 'self' and klass.has(n.func.attr) and not n.keywords:
+                f = klass.method(n.func.attr)
+                e = body_expr(f)
+                ps = f.params[1:]
+                if e is not None and len(ps) == len(n.args):
+                    m = dict(zip(ps, n.args))
+
+                    class S(ast.NodeTransformer):
+                        def visit_Name(self, x):
+                            return copy.deepcopy(m[x.id]) if x.id in m and isinstance(x.ctx, ast.Load) else x
+                    return S().visit(copy.deepcopy(e))
+            return n
+    out = copy.deepcopy(node)
+    for _ in range(depth):
+        out = T().visit(out)
+    return out
